@@ -318,13 +318,6 @@ class SInterp(M.Interp):
                 raise Unsupported("exclude_single_value of non-scalar")
             r["set"](cand("Excl", a=deref(r), x=x))
             return {"kind": "unit"}
-        if func.endswith("NullableValue>::is_null"):
-            v = deref(a[0])
-            if v.get("kind") == "fvlist":
-                return {"kind": "bool", "v": False}
-            if v.get("kind") != "fv" or not isinstance(v["null"], bool):
-                raise Unsupported("is_null on a value whose nullness is symbolic")
-            return {"kind": "bool", "v": v["null"]}
         return super().call(fr, func, args)
 
 
@@ -414,21 +407,28 @@ def static_obligations(interp, ops, tier):
         for nullable in (True, False):
             built = [make_filter(i, s) for i, s in enumerate(combo)]
             filters = lst([mkref(o) for o, _ in built])
-            interp.steps = 0
-            try:
-                res = interp.run(fn, {1: filters, 2: {"kind": "opaque", "what": "query_variables"}, 3: {"kind": "bool", "v": nullable}})
-            except PanicPath as e:
-                yield ("S1/" + "+".join(label(s) for s in combo) + f"/nullable={int(nullable)}", None, None, {"panic": str(e), "combo": combo, "nullable": nullable})
-                continue
-            if res.get("kind") != "opt":
-                raise Unsupported("static constructor result shape")
             oid = "S1/" + "+".join(label(s) for s in combo) + f"/nullable={int(nullable)}"
-            if res["variant"] == "None":
+            def mkargs(built=built, nullable=nullable):
+                return {1: lst([mkref(o) for o, _ in built]), 2: {"kind": "opaque", "what": "query_variables"}, 3: {"kind": "bool", "v": nullable}}
+            paths = interp.run_paths(fn, mkargs)
+            prem = "(and " + " ".join(p for _, p in built) + (" true" if nullable else " (not pn)") + ")"
+            bad, hinted = [], False
+            for pc, res in paths:
+                pct = "(and true " + " ".join(pc) + ")"
+                if isinstance(res, PanicPath):
+                    bad.append(pct)          # a panic while computing a hint for admitted arguments counts as a failure
+                    hinted = True
+                    continue
+                if res.get("kind") != "opt":
+                    raise Unsupported("static constructor result shape")
+                if res["variant"] == "None":
+                    continue
+                hinted = True
+                bad.append(f"(and {pct} (not {member(deref(res['payload'][0]), FV('pn', 'pv'))}))")
+            if not hinted:
                 yield (oid, "nohint", None, {"combo": combo, "nullable": nullable})
                 continue
-            mem = member(deref(res["payload"][0]), FV("pn", "pv"))
-            prem = "(and " + " ".join(p for _, p in built) + (" true" if nullable else " (not pn)") + ")"
-            yield (oid, f"(and {prem} (not {mem}))", prem, {"combo": combo, "nullable": nullable, "member": mem})
+            yield (oid, f"(and {prem} (or false {' '.join(bad)}))", prem, {"combo": combo, "nullable": nullable})
 
 
 def mandatory_obligations(interp, tier):
@@ -445,14 +445,18 @@ def mandatory_obligations(interp, tier):
                 shapes.append((f"Range[{sk},{ek},null={int(ni)}]", cand("Range", [{"kind": "range", "start": bound(sk, 0), "end": bound(ek, 1), "null_included": ni}])))
     zero = FV(False, "0")
     for name, c in shapes:
-        interp.steps = 0
-        r = interp.run(fn, {1: closure, 2: c})
-        if r.get("kind") == "bool":
-            t = "true" if r["v"] else "false"
-        elif r.get("kind") == "sbool":
-            t = r["t"]
-        else:
-            raise Unsupported("mandatory closure result")
+        terms = []
+        for pc, r in interp.run_paths(fn, lambda c=c: {1: closure, 2: c}):
+            if isinstance(r, PanicPath):
+                raise Unsupported("mandatory classification panics on " + name)
+            if r.get("kind") == "bool":
+                rt = "true" if r["v"] else "false"
+            elif r.get("kind") == "sbool":
+                rt = r["t"]
+            else:
+                raise Unsupported("mandatory closure result")
+            terms.append("(and true " + " ".join(pc) + " " + rt + ")")
+        t = "(or false " + " ".join(terms) + ")"
         yield ("S2/" + name, f"(and {t} {member(c, zero)})", t, {"shape": name, "mandatory": t})
 
 
@@ -605,8 +609,11 @@ def run(fns, tier):
         asserts, idx = [], []
         for k, ((combo, nullable, assign), r) in enumerate(zip(vmeta, real)):
             built = [make_filter(i, s) for i, s in enumerate(combo)]
-            interp.steps = 0
-            res = interp.run(interp.find(r"^fn candidate_from_statically_evaluated_filters\("), {1: lst([mkref(o) for o, _ in built]), 2: {"kind": "opaque"}, 3: {"kind": "bool", "v": nullable}})
+            vpaths = interp.run_paths(interp.find(r"^fn candidate_from_statically_evaluated_filters\("), lambda built=built, nullable=nullable: {1: lst([mkref(o) for o, _ in built]), 2: {"kind": "opaque"}, 3: {"kind": "bool", "v": nullable}})
+            if len(vpaths) != 1 or isinstance(vpaths[0][1], PanicPath):
+                out["validated"] += 0       # forking constructors are validated through replay only
+                continue
+            res = vpaths[0][1]
             if (res["variant"] == "None") != (r["cand"] == "none"):
                 out["inconclusive"].append(f"translator validation: hint presence differs for {vcases[k]}")
                 continue
